@@ -65,6 +65,31 @@ def polars_horizontal_bug_applies(prog, where):
     return has_h and trigger
 
 
+def has_literal_case_under_operator(prog):
+    """D16 (third trigger, program feature): an operator one of whose operands is a case expression with only
+    literal branch values while all its other operands are literals (or such case expressions).  Polars
+    evaluates the case expression to a length-1 series when the condition column is uniform (all true / all
+    false / all null) and then fails to broadcast the operator's result (pure-Polars reproduction in
+    notes/polars_bugs.py)."""
+    from . import kf
+
+    def lit_case(n):
+        return n.get("k") in ("case", "map") and all(not kf.has_col(v) for _c, v in n.get("cases", [])) and (n.get("default") is None or not kf.has_col(n["default"]))
+
+    def scalarish(n):
+        if not isinstance(n, dict):
+            return True
+        if n.get("k") in ("case", "map"):
+            return lit_case(n)
+        return not kf.has_col(n)
+
+    for st in prog["steps"]:
+        for n in kf.walk(st):
+            if n.get("k") == "fn" and n.get("a") and any(isinstance(a, dict) and a.get("k") in ("case", "map") and lit_case(a) for a in n["a"]) and all(scalarish(a) for a in n["a"]):
+                return True
+    return False
+
+
 def has_constant_condition(prog):
     from . import kf
 
@@ -336,7 +361,7 @@ def run_program(prog, backends=("pol", "sqlite"), opts=None, be_cache=None) -> O
                     # D19: SQLite 3.40 cannot flatten a FULL JOIN inside a compound / sub-select (engine limit)
                     out.excluded[be] = "D19"
                     continue
-                if be == "pol" and "to be broadcasted, ensure it is a scalar" in str(exp_exc) and has_constant_condition(prog):
+                if be == "pol" and "to be broadcasted, ensure it is a scalar" in str(exp_exc) and (has_constant_condition(prog) or has_literal_case_under_operator(prog)):
                     out.excluded[be] = "D16"  # same Polars broadcasting bug, triggered by a constant when-condition
                     continue
                 if be == "pol" and type(exp_exc).__name__ == "PanicException" and "JoinType::Cross" in str(exp_exc):
